@@ -10,18 +10,42 @@ namespace SfntV.Font
 codec's normalisation, and integer fields are in the range of their binary field. -/
 structure Decoded (T : Tables) : Prop where
   codecFixed : codec T = T
+  /-- head.fontRevision is a 32-bit field -/
   revision : ∀ h, T.head = some h → h.fontRevision < 4294967296
+  /-- hmtx advance widths and post underline metrics are int16 fields -/
+  hmtxRange : ∀ h, T.hmtx = some h → ∀ w ∈ h.widths, isInt16 w
+  postRange : ∀ p, T.post = some p → isInt16 p.underlinePosition ∧ isInt16 p.underlineThickness
+  /-- the italic angle of a CFF FontInfo lies in (-180, 180] degrees and the caret angle
+  recovered from hhea in [-90, 90]; both fit 16.16 -/
+  cffAngle : ∀ c, T.cff = some c → isInt32 c.italicAngle.round16
+  caretRange : ∀ h, T.hmtx = some h → isInt32 h.caret16
   /-- CFF glyph data carries one width per glyph -/
   cffWidths : ∀ l, T.outline.widths = some l → l.length = T.outline.numGlyphs
 
-/-- The clauses of `Canonical (merge T)` that do *not* hold for every accepted table set.
-`bold` fails for DESIGN §9 #4 (weight word "Bold" without the Bold flag); `angle`, `ulPos`,
-`ulThick`, `widths`, `widthsNone` can only fail for files without post / hmtx tables (values then
-come from the CFF table or are missing); `widthClass` is a limitation of the proof (the string
-lemmas are proved for usWidthClass 0..9). -/
+/-- an int16 whole number (what the post and hmtx tables can hold) -/
+def isWhole16 (d : Dy) : Prop := ∃ n, d = Dy.ofInt n ∧ isInt16 n
+
+/-- `T` is in none of the open known-finding classes of C01.  Every clause names its finding; a
+file that has the post and hmtx tables `Write` always emits satisfies the last two by their first
+disjunct. -/
 structure Stable (T : Tables) : Prop where
+  /-- not C01-bold-word (DESIGN §9 #4): if `Subfamily()` of the font as read says "Bold" — the
+  weight word for usWeightClass 650..749 unless the family name already contains it — then the
+  font was read with IsBold set -/
   bold : boldWord (subfamily (merge T)) = true → (merge T).isBold = true
-  widthClass : (merge T).width ≤ 9
+  /-- not C01-no-post-underline: there is a post table, or the underline metrics taken from
+  the CFF FontInfo are whole numbers in int16 -/
+  underline : T.post.isSome = true ∨
+    (isWhole16 (merge T).underlinePosition ∧ isWhole16 (merge T).underlineThickness)
+  /-- not C01-no-hmtx-widths / C01-no-hmtx-cff-widths: hmtx supplies the advance widths, or the
+  widths stored in the CFF glyph data are whole numbers in int16 and a TrueType font has no glyphs -/
+  widths : hmtxWidths T ≠ [] ∨
+    ((∀ w ∈ (merge T).outline.widthList, isWhole16 w) ∧
+     ((merge T).outline.widths = none → (merge T).outline.numGlyphs = 0))
+
+/-- the clauses of `Canonical (merge T)` that are not automatic (internal form of `Stable`) -/
+structure StableF (T : Tables) : Prop where
+  bold : boldWord (subfamily (merge T)) = true → (merge T).isBold = true
   angle : isInt32 (merge T).italicAngle.num
   ulPos : ∃ n, (merge T).underlinePosition = Dy.ofInt n ∧ isInt16 n
   ulThick : ∃ n, (merge T).underlineThickness = Dy.ofInt n ∧ isInt16 n
@@ -290,18 +314,18 @@ theorem weightTag_mem (F : FontMeta) : ∀ p, weightTag F = some p → p.1 ∈ w
   · cases hp; exact weightSimple_mem _
   · cases hp
 
-theorem subfamily_italic (F : FontMeta) (hw : F.width ≤ 9) :
+theorem subfamily_italic (F : FontMeta) :
     hasInfix s_Italic (subfamily F) = (F.isItalic && !F.isOblique) :=
-  subfamilyCore_italic F.width hw (weightTag F) (weightTag_mem F) _ _ _
+  subfamilyCore_italic F.width (weightTag F) (weightTag_mem F) _ _ _
 
 theorem isZero_eq (d : Dy) : d.isZero = !decide (d.num ≠ 0) := by
   unfold Dy.isZero
   by_cases h : d.num = 0 <;> simp [h]
 
-theorem merge_italic_ok (T : Tables) (hw : (merge T).width ≤ 9) :
+theorem merge_italic_ok (T : Tables) :
     (merge T).isItalic = (!(merge T).italicAngle.isZero || (merge T).isOblique ||
       hasInfix s_Italic (subfamily (merge T))) := by
-  rw [subfamily_italic _ hw, isZero_eq]
+  rw [subfamily_italic _, isZero_eq]
   have h1 := merge_isItalic T
   have h2 := merge_isOblique T
   generalize (merge T).isItalic = it at *
@@ -358,6 +382,110 @@ theorem merge_gsub_ok (T : Tables) : (merge T).gsub = none →
 theorem inDomain_merge (T : Tables) (hacc : readErr T = none) (hd : Decoded T) : InDomain (merge T) :=
   inDomain_merge' T hacc hd.cffWidths
 
+theorem codec_post (T : Tables) (hc : codec T = T) (p : PostRec) (hp : T.post = some p) : codecPost p = p := by
+  have := congrArg Tables.post hc
+  simp only [codec, hp, Option.map] at this
+  exact Option.some.inj this
+
+theorem merge_ul_post (T : Tables) (p : PostRec) (hp : T.post = some p) :
+    (merge T).underlinePosition = Dy.ofInt p.underlinePosition ∧
+    (merge T).underlineThickness = Dy.ofInt p.underlineThickness := by
+  unfold merge
+  simp only [hp]
+  exact ⟨trivial, trivial⟩
+
+theorem merge_angle_num (T : Tables) :
+    (merge T).italicAngle.num =
+      (match T.post with
+      | some p => p.italicAngle.round16
+      | none => match (if T.scalerCFF then T.cff else none) with
+        | some c => c.italicAngle.round16
+        | none => match T.hmtx with
+          | some h => h.caret16
+          | none => 0) := rfl
+
+theorem merge_angle_range (T : Tables) (hd : Decoded T) : isInt32 (merge T).italicAngle.num := by
+  rw [merge_angle_num]
+  cases hp : T.post with
+  | some p =>
+    have h := codec_post T hd.codecFixed p hp
+    have h2 : p.italicAngle = ⟨toInt32 p.italicAngle.round16, 16⟩ := by
+      have := congrArg PostRec.italicAngle h
+      simpa [codecPost] using this.symm
+    simp only
+    rw [h2, round16_fix16]
+    exact toInt32_range _
+  | none =>
+    simp only
+    cases hs : T.scalerCFF with
+    | false =>
+      simp only [Bool.false_eq_true, if_false]
+      cases hh : T.hmtx with
+      | some h => exact hd.caretRange h hh
+      | none => exact ⟨by decide, by decide⟩
+    | true =>
+      simp only [if_true]
+      cases hc : T.cff with
+      | some c => exact hd.cffAngle c hc
+      | none =>
+        simp only
+        cases hh : T.hmtx with
+        | some h => exact hd.caretRange h hh
+        | none => exact ⟨by decide, by decide⟩
+
+theorem hmtxWidths_range (T : Tables) (hd : Decoded T) : ∀ w ∈ hmtxWidths T, isInt16 w := by
+  unfold hmtxWidths
+  cases hh : T.hmtx with
+  | none => intro w hw; cases hw
+  | some h =>
+    simp only
+    intro w hw
+    split at hw
+    · exact hd.hmtxRange h hh w (List.mem_of_mem_take hw)
+    · exact hd.hmtxRange h hh w hw
+
+theorem mergeOutline_widths_hmtx (T : Tables) (h : hmtxWidths T ≠ []) :
+    (mergeOutline T).widths = some ((hmtxWidths T).map Dy.ofInt) := by
+  unfold mergeOutline
+  have : (hmtxWidths T).length > 0 := by
+    cases hh : hmtxWidths T with
+    | nil => exact absurd hh h
+    | cons a t => simp
+  simp only [this, if_true]
+
+/-- the table-level hypotheses give the field-level ones -/
+theorem stableF_of (T : Tables) (hd : Decoded T) (hs : Stable T) : StableF T where
+  bold := hs.bold
+  angle := merge_angle_range T hd
+  ulPos := by
+    rcases hs.underline with h | h
+    · cases hp : T.post with
+      | none => rw [hp] at h; cases h
+      | some p => exact ⟨p.underlinePosition, (merge_ul_post T p hp).1, (hd.postRange p hp).1⟩
+    · exact h.1
+  ulThick := by
+    rcases hs.underline with h | h
+    · cases hp : T.post with
+      | none => rw [hp] at h; cases h
+      | some p => exact ⟨p.underlineThickness, (merge_ul_post T p hp).2, (hd.postRange p hp).2⟩
+    · exact h.2
+  widths := by
+    rcases hs.widths with h | h
+    · intro w hw
+      rw [merge_outline] at hw
+      unfold Outline.widthList at hw
+      rw [mergeOutline_widths_hmtx T h] at hw
+      simp only [List.mem_map] at hw
+      obtain ⟨n, hn, rfl⟩ := hw
+      exact ⟨n, rfl, hmtxWidths_range T hd n hn⟩
+    · exact h.1
+  widthsNone := by
+    rcases hs.widths with h | h
+    · intro hn
+      rw [merge_outline, mergeOutline_widths_hmtx T h] at hn
+      cases hn
+    · exact h.2
+
 theorem canonical_merge (T : Tables) (hacc : readErr T = none) (hd : Decoded T) (hs : Stable T) :
     Canonical (merge T) where
   version := have _ := hacc; merge_version_nf T hd.revision
@@ -367,15 +495,15 @@ theorem canonical_merge (T : Tables) (hacc : readErr T = none) (hd : Decoded T) 
   matrix := merge_matrix T
   cap := merge_cap_ok T hd.codecFixed
   xh := merge_xh_ok T hd.codecFixed
-  angle := ⟨(merge T).italicAngle.num, rfl, hs.angle⟩
-  ulPos := hs.ulPos
-  ulThick := hs.ulThick
-  italic := merge_italic_ok T hs.widthClass
+  angle := ⟨(merge T).italicAngle.num, rfl, (stableF_of T hd hs).angle⟩
+  ulPos := (stableF_of T hd hs).ulPos
+  ulThick := (stableF_of T hd hs).ulThick
+  italic := merge_italic_ok T
   bold := hs.bold
   regular := merge_regular_ok T
   script := merge_script_ok T
-  widths := hs.widths
-  widthsNone := hs.widthsNone
+  widths := (stableF_of T hd hs).widths
+  widthsNone := (stableF_of T hd hs).widthsNone
   widthsEmpty := by rw [merge_outline]; exact mergeOutline_widthsEmpty T
   gsub := merge_gsub_ok T
 
@@ -427,37 +555,20 @@ theorem nfVersion_idem (v : Nat) (h : v < 4294967296) : nfVersion (nfVersion v) 
   rw [← verRound_nfVersion v h]
   exact nfVersion_verRound _ (nfVersion_lt v)
 
-theorem subfamilyCore_bold_none (width : Nat) (hw : width ≤ 9) (b o i : Bool) :
-    boldWord (subfamilyCore width none b o i) = b :=
-  subfamilyCore_bold width hw none (fun _ h => nomatch h) b o i
-
-theorem subfamilyCore_bold_some (width : Nat) (hw : width ≤ 9) (t : Str) (s : Bool)
-    (ht : t ∈ weightWords) (b o i : Bool) :
-    boldWord (subfamilyCore width (some (t, s)) b o i) = (decide (t = s_Bold) && !s) :=
-  subfamilyCore_bold width hw (some (t, s)) (fun _ h => by cases h; exact ht) b o i
-
 /-- `boldWord (subfamily F)` as a function of the weight tag and the Bold flag -/
 def boldForm (wt : Option (Str × Bool)) (b : Bool) : Bool :=
   match wt with
   | none => b
   | some (tag, seen) => decide (tag = s_Bold) && !seen
 
-theorem subfamily_bold (F : FontMeta) (hw : F.width ≤ 9) :
-    boldWord (subfamily F) = boldForm (weightTag F) F.isBold := by
-  unfold subfamily
-  have hm := weightTag_mem F
-  generalize weightTag F = wt at hm ⊢
-  cases wt with
-  | none => exact subfamilyCore_bold_none _ hw _ _ _
-  | some p =>
-    obtain ⟨t, s⟩ := p
-    exact subfamilyCore_bold_some _ hw t s (hm (t, s) rfl) _ _ _
+theorem subfamily_bold (F : FontMeta) :
+    boldWord (subfamily F) = boldForm (weightTag F) F.isBold :=
+  subfamilyCore_bold F.width (weightTag F) (weightTag_mem F) _ _ _
 
-theorem nf_italic_ok (F : FontMeta) (hw : F.width ≤ 9) :
+theorem nf_italic_ok (F : FontMeta) :
     (nf F).isItalic = (!(nf F).italicAngle.isZero || (nf F).isOblique ||
       hasInfix s_Italic (subfamily (nf F))) := by
-  rw [subfamily_italic (nf F) (by rw [nf_width]; exact hw), nf_isOblique, nf_isItalic, nf_angle,
-    subfamily_italic F hw]
+  rw [subfamily_italic (nf F), nf_isOblique, nf_isItalic, nf_angle, subfamily_italic F]
   have hz := toInt32_zero_of_isZero F.italicAngle
   generalize toInt32 F.italicAngle.round16 = r at *
   cases hzz : F.italicAngle.isZero
@@ -466,9 +577,9 @@ theorem nf_italic_ok (F : FontMeta) (hw : F.width ≤ 9) :
     subst this
     cases F.isOblique <;> cases F.isItalic <;> simp [Dy.isZero]
 
-theorem nf_bold_ok (F : FontMeta) (hw : F.width ≤ 9) :
+theorem nf_bold_ok (F : FontMeta) :
     boldWord (subfamily (nf F)) = true → (nf F).isBold = true := by
-  rw [subfamily_bold (nf F) (by rw [nf_width]; exact hw), nf_weightTag, nf_isBold, subfamily_bold F hw]
+  rw [subfamily_bold (nf F), nf_weightTag, nf_isBold, subfamily_bold F]
   cases weightTag F with
   | none => simp [boldForm]
   | some p =>
@@ -567,7 +678,7 @@ theorem nfOutline_widthsEmpty (o : Outline) (hk : (nfOutline o).kind = .glyf) :
   generalize Outline.widthList _ = wl
   cases wl <;> simp
 
-theorem canonical_nf (F : FontMeta) (h : InDomain F) (hw : F.width ≤ 9) : Canonical (nf F) where
+theorem canonical_nf (F : FontMeta) (h : InDomain F) : Canonical (nf F) where
   version := nfVersion_idem F.version h.2.2
   ctime := decode_encode_idem _
   mtime := decode_encode_idem _
@@ -578,8 +689,8 @@ theorem canonical_nf (F : FontMeta) (h : InDomain F) (hw : F.width ≤ 9) : Cano
   angle := ⟨_, rfl, toInt32_range _⟩
   ulPos := ⟨_, rfl, toInt16_range _⟩
   ulThick := ⟨_, rfl, toInt16_range _⟩
-  italic := nf_italic_ok F hw
-  bold := nf_bold_ok F hw
+  italic := nf_italic_ok F
+  bold := nf_bold_ok F
   regular := nf_regular_ok F
   script := nf_script_ok F
   widths := nfOutline_widths_ok F.outline
@@ -587,7 +698,7 @@ theorem canonical_nf (F : FontMeta) (h : InDomain F) (hw : F.width ≤ 9) : Cano
   widthsEmpty := nfOutline_widthsEmpty F.outline
   gsub := nf_gsub_ok F
 
-theorem nf_idem (F : FontMeta) (h : InDomain F) (hw : F.width ≤ 9) : nf (nf F) = nf F :=
-  lossless (nf F) (canonical_nf F h hw)
+theorem nf_idem (F : FontMeta) (h : InDomain F) : nf (nf F) = nf F :=
+  lossless (nf F) (canonical_nf F h)
 
 end SfntV.Font
